@@ -14,10 +14,24 @@
  *   push <slot> <e>     pop <slot>      pushat <slot> <e> <i>      popat <slot> <i>      append <slot> <e>
  *   get <slot> <i>      set <slot> <i> <e>     mem <slot> <v>      rem <slot> <v>        len <slot>
  *   concat <slot> <src>     assign <slot> <src>     resize <slot> <n>     sort <slot> <0|1|2|3>     iter <slot>
+ *   assign <slot> <slot>                (assign(x, x): since fix a3140e4 a no-op for Array and List; Tuple re-stores its own cells)
+ *   assignf <slot> <src> <0|1|2>        (assign(x, filter(src, p)): an iterator-only source — no Len, no Get; p = 0 keeps every
+ *                                       element, 1 the even values, 2 none.  Array: clear + push each; List: ClassError after the
+ *                                       clear; Tuple: items are APPENDED (known finding KF-C04-tuple-assign-iter unless it is empty))
+ *   pushelem <slot> <k>                 (push(x, get(x, k)): the argument is the container's own element)
+ *   pushatelem <slot> <k> <i>           (push_at(x, get(x, k), i).  For an Array both print `own-refused` and do nothing when the
+ *                                       call is in the territory of known finding KF-C04-push-own-element: the Array would
+ *                                       have to grow (realloc moves the block the argument points into) or, for push_at, k >= i
+ *                                       after normalisation (the argument is read after the memmove and the zeroing of record i);
+ *                                       for a Tuple the pointer is already inside: `dup-refused`)
  *   kf13 <id:value>                     (known finding F13: a Tuple holding one pointer twice; runs in a forked child)
- *   kfself <assign|concat> <A|AR|L|T> <e>*   (known findings KF-C04-self-assign / KF-C04-self-concat: op(x, x) on a fresh
- *                                       container with these elements, in a forked child; AR = Array whose capacity was
- *                                       reserved to 2*len first; prints `ret <dump>` | `diverges` | `ub`)
+ *   kfself <assign|concat> <A|AR|L|T> <e>*   (aliased arguments op(x, x) on a fresh container with these elements, in a forked
+ *                                       child; AR = Array whose capacity was reserved to 2*len first; prints `ret <dump>` |
+ *                                       `diverges` | `ub`.  concat: known finding KF-C04-self-concat; assign: regression
+ *                                       witness of fix a3140e4, a wrong result is an ordinary violation `C04-self-assign`)
+ *   kfown <push|pushat> <nslots> <k> <i> <e>*   (known finding KF-C04-push-own-element: on a fresh Array<Int> with these elements
+ *                                       and capacity max(len, nslots): push(a, get(a, k)) / push_at(a, get(a, k), i) (i is
+ *                                       ignored for push), in a forked child; prints `ret <dump>` | `ub`)
  * kinds A12 / A5 = Array of 12-byte / 5-byte records (file-scope types Rec12 / Rec5: own Cmp, no Swap, no Assign, sizes
  * that are not a multiple of the machine word, so the default byte-wise swap/assign paths and the rounded Array stride are
  * exercised); an integer v is encoded in the whole record (redundantly: a trailing check field), a record whose fields do
@@ -419,7 +433,7 @@ static void run_kfself(int isc, int k, int reserve, Ent* es, size_t n) {
   while ((r = read(pf[0], b + got, sizeof b - 1 - got)) > 0) got += r; b[got] = 0; close(pf[0]);
   int st; waitpid(pid, &st, 0);
   const char* opn = isc ? "concat" : "assign"; const char* kn = reserve ? "AR" : kind_name[k];
-  const char* sig = isc ? "KF-C04-self-concat" : "KF-C04-self-assign";
+  const char* sig = isc ? "KF-C04-self-concat" : "C04-self-assign";      /* assign(x, x) was repaired (a3140e4): a wrong result is an ordinary violation */
   if (WIFSIGNALED(st) && (WTERMSIG(st) == SIGPROF || WTERMSIG(st) == SIGALRM)) {
     O("kfself %s %s diverges", opn, kn);
     X("sig=%s line=%zu what=%s(x, x) on a %s of %zu elements does not terminate", sig, cur_line, opn, kn, n);
@@ -443,6 +457,59 @@ static void run_kfself(int isc, int k, int reserve, Ent* es, size_t n) {
     free(e.ref);
   }
 }
+
+/* ---- known finding KF-C04-push-own-element: an Array's own element as the argument of push / push_at, in a forked child ---- */
+static void run_kfown(int isat, size_t nslots, int64_t kidx, int64_t iidx, Ent* es, size_t n) {
+  int pf[2]; if (pipe(pf)) { perror("pipe"); exit(2); }
+  fflush(stdout);
+  pid_t pid = fork();
+  if (pid == 0) {
+    close(pf[0]);
+    int devnull = open("/dev/null", O_WRONLY); if (devnull >= 0) dup2(devnull, 2);   /* the sanitizer report is expected */
+    alarm(30);
+    Slot s; memset(&s, 0, sizeof s); s.kind = K_A;
+    s.obj = new_container(K_A, es, n);
+    if (nslots > n) resize(s.obj, nslots);
+    var exc; var own = NULL;
+    V_TRY(exc, own = get(s.obj, $I(kidx)));
+    if (!exc) { if (isat) V_TRY(exc, push_at(s.obj, own, $I(iidx))); else V_TRY(exc, push(s.obj, own)); }
+    alarm(0);
+    char b[4096]; size_t o = 0;
+    if (exc) o = snprintf(b, sizeof b, "err=%s", v_exc_name(exc));
+    else { read_rep(&s); o = fmt_dump(b, sizeof b, &s); }
+    if (write(pf[1], b, o) < 0) {}
+    _exit(0);
+  }
+  close(pf[1]); static char b[4200]; size_t got = 0; ssize_t r;
+  while ((r = read(pf[0], b + got, sizeof b - 1 - got)) > 0) got += r; b[got] = 0; close(pf[0]);
+  int st; waitpid(pid, &st, 0);
+  const char* opn = isat ? "pushat" : "push"; const char* sig = "KF-C04-push-own-element";
+  /* the abstract result: the value of element k inserted at the position the index names (the type's own rule) */
+  size_t kpos = 0, ipos = n; int kin = ref_idx(n, kidx, &kpos), iin = 1;
+  if (isat) { if (iidx >= 0 && iidx <= (int64_t)n) ipos = (size_t)iidx; else if (iidx < 0 && -(int64_t)(n + 1) <= iidx) ipos = (size_t)((int64_t)n + 1 + iidx); else iin = 0; }
+  if (!WIFEXITED(st) || WEXITSTATUS(st) != 0) {
+    O("kfown %s ub", opn);
+    X("sig=%s line=%zu what=%s(a, get(a, %" PRId64 ")%s) on an Array of %zu elements with capacity %zu leaves the object: the argument points into the block that realloc moved (%s %d)",
+      sig, cur_line, isat ? "push_at" : "push", kidx, isat ? ", i" : "", n, nslots > n ? nslots : n, WIFEXITED(st) ? "sanitizer exit status" : "signal", WIFEXITED(st) ? WEXITSTATUS(st) : WTERMSIG(st));
+    return;
+  }
+  O("kfown %s ret %s", opn, b);
+  if (!kin || !iin) { if (strcmp(b, "err=IndexOutOfBoundsError")) X("sig=C04-outcome line=%zu what=kfown with an index out of range returned `%s`", cur_line, b); return; }
+  Slot e; memset(&e, 0, sizeof e); e.kind = K_A;
+  ref_reserve(&e, n + 1); entcpy(e.ref, es, n); e.n = n; ref_insert(&e, ipos, es[kpos]);
+  char want[4096]; fmt_seq(want, sizeof want, e.ref, e.n);
+  char* bl = strchr(b, '[');
+  if (!bl || strcmp(bl, want) != 0)
+    X("sig=%s line=%zu what=%s(a, get(a, %" PRId64 ")%s) leaves `%s`, the abstract sequence is %s: the argument is read after the records were shifted and record i was zeroed",
+      sig, cur_line, isat ? "push_at" : "push", kidx, isat ? ", i" : "", b, want);
+  free(e.ref);
+}
+
+/* predicates of the iterator-only sources (filter) */
+static var pf_all(var x) { return x; }
+static var pf_even(var x) { return (ev(x) & 1) == 0 ? x : NULL; }
+static var pf_none(var x) { (void)x; return NULL; }
+static int pf_keep(int p, int64_t v) { return p == 0 ? 1 : p == 1 ? ((v & 1) == 0) : 0; }
 
 static Slot* slot_of(const char* tok, int must_exist) {
   int64_t v; if (!parse_nat(tok, &v) || v >= NSLOT) return NULL;
@@ -492,6 +559,14 @@ int main(int argc, char** argv) {
       if (ok && k == K_T) for (size_t i = 0; i < n && ok; i++) for (size_t j = 0; j < i; j++) if (es[i].id == es[j].id) { ok = 0; break; }
       if (!ok || n > 200) { free(es); O("bad-op"); continue; }
       run_kfself(isc, k, reserve, es, n); free(es); continue;
+    }
+    if (!strcmp(cmd, "kfown") && nt >= 5) {
+      int isat = !strcmp(toks[1], "pushat"); int64_t ns, kk, ii;
+      if ((!isat && strcmp(toks[1], "push")) || !parse_nat(toks[2], &ns) || ns > 100000 || !parse_i64(toks[3], &kk) || !parse_i64(toks[4], &ii)) { O("bad-op"); continue; }
+      size_t n = nt - 5; Ent* es = malloc((n + 1) * sizeof(Ent)); int ok = 1;
+      for (size_t i = 0; i < n && ok; i++) ok = parse_elem(K_A, toks[5 + i], &es[i]);
+      if (!ok || n > 200) { free(es); O("bad-op"); continue; }
+      run_kfown(isat, (size_t)ns, kk, ii, es, n); free(es); continue;
     }
     if (!strcmp(cmd, "new") && nt >= 3) {
       s = slot_of(toks[1], 0); int k = K_NONE;
@@ -557,9 +632,10 @@ int main(int argc, char** argv) {
       emit(cmd, vb, s); continue;
     } else if (!strcmp(cmd, "set") && nt == 4) {
       if (!parse_i64(toks[2], &iv) || !parse_elem(k, toks[3], &e)) { O("bad-op"); continue; }
-      if (k == K_T && ref_has_id(s, e.id)) { O("set dup-refused"); continue; }
-      V_TRY(exc, set(s->obj, $I(iv), ARG(a, k, e, 1)));
       int inr = ref_idx(n, iv, &kpos);
+      /* a pointer may replace itself; anywhere else it would be a second copy (F13 territory) */
+      if (k == K_T && inr) { int dup = 0; for (size_t j = 0; j < n; j++) if (j != kpos && s->ref[j].id == e.id) dup = 1; if (dup) { O("set dup-refused"); continue; } }
+      V_TRY(exc, set(s->obj, $I(iv), ARG(a, k, e, 1)));
       expect_exc(cmd, exc, inr ? NULL : IndexOutOfBoundsError); if (inr) s->ref[kpos] = e;
     } else if (!strcmp(cmd, "mem") && nt == 3) {
       if (!parse_val(k, toks[2], &iv)) { O("bad-op"); continue; }
@@ -583,7 +659,11 @@ int main(int argc, char** argv) {
       char vb[40]; snprintf(vb, sizeof vb, "v=%zu", (size_t)L); emit(cmd, exc ? res_of(exc, rb, sizeof rb) : vb, s); continue;
     } else if ((!strcmp(cmd, "concat") || !strcmp(cmd, "assign")) && nt == 3) {
       src = slot_of(toks[2], 1); int isc = cmd[0] == 'c';
-      if (!src || src == s) { O("bad-op"); continue; }
+      if (!src || (src == s && isc)) { O("bad-op"); continue; }      /* concat(x, x): known finding, `kfself` only */
+      if (src == s) {                                                 /* assign(x, x) leaves x as it was */
+        V_TRY(exc, assign(s->obj, s->obj)); expect_exc(cmd, exc, NULL);
+        check_state(s, -1, force_iter); emit(cmd, res_of(exc, rb, sizeof rb), s); continue;
+      }
       int sk = src->kind, okk;
       if (k == K_T) okk = sk == K_T;
       else if (is_str(k)) okk = is_str(sk);
@@ -595,6 +675,50 @@ int main(int argc, char** argv) {
       expect_exc(cmd, exc, NULL);
       if (!isc) s->n = 0;
       for (size_t i = 0; i < src->n; i++) { Ent x = src->ref[i]; if (k != K_T) x.id = -1; ref_insert(s, s->n, x); }
+    } else if ((!strcmp(cmd, "pushelem") && nt == 3) || (!strcmp(cmd, "pushatelem") && nt == 4)) {
+      int isat = cmd[4] == 'a'; int64_t kv; size_t kk;
+      if (!parse_i64(toks[2], &kv) || (isat && !parse_i64(toks[3], &iv))) { O("bad-op"); continue; }
+      int kin = ref_idx(n, kv, &kk), inr = 1; kpos = n;
+      if (isat) {
+        if (is_arr(k)) { if (iv >= 0 && iv <= (int64_t)n) kpos = iv; else if (iv < 0 && -(int64_t)(n + 1) <= iv) kpos = (size_t)((int64_t)n + 1 + iv); else inr = 0; }
+        else if (is_lst(k) && iv == 0) kpos = 0;
+        else inr = ref_idx(n, iv, &kpos);
+      }
+      if (kin && k == K_T) { O("%s dup-refused", cmd); continue; }
+      if (kin && inr && is_arr(k) && (n + 1 > nslots0 || (isat && kk >= kpos))) { O("%s own-refused", cmd); continue; }
+      var own = NULL; V_TRY(exc, own = get(s->obj, $I(kv)));
+      if (!exc) { if (isat) V_TRY(exc, push_at(s->obj, own, $I(iv))); else V_TRY(exc, push(s->obj, own)); }
+      expect_exc(cmd, exc, (kin && inr) ? NULL : IndexOutOfBoundsError);
+      if (kin && inr) { Ent x = s->ref[kk]; ref_insert(s, kpos, x); }
+    } else if (!strcmp(cmd, "assignf") && nt == 4) {
+      src = slot_of(toks[2], 1); int64_t pv;
+      if (!src || src == s || !parse_nat(toks[3], &pv) || pv > 2) { O("bad-op"); continue; }
+      int sk = src->kind, okk;
+      if (k == K_T) okk = sk == K_T;
+      else if (is_str(k)) okk = is_str(sk);
+      else if (is_rec(k)) okk = sk == k;
+      else okk = sk == K_A || sk == K_L;
+      if (!okk) { O("bad-op"); continue; }
+      if (k == K_T) { int dup = 0; for (size_t i = 0; i < src->n && !dup; i++) dup = pf_keep((int)pv, src->ref[i].val) && ref_has_id(s, src->ref[i].id); if (dup) { O("assignf dup-refused"); continue; } }
+      var fn = $(Function, pv == 0 ? pf_all : pv == 1 ? pf_even : pf_none);
+      V_TRY(exc, assign(s->obj, filter(src->obj, fn)));
+      if (is_lst(k)) {
+        /* List_Assign needs len(obj): out of range for a List; what is left of the List is the model's business (and C12's) */
+        expect_exc(cmd, exc, ClassError);
+        read_rep(s); ref_reserve(s, cur_n); entcpy(s->ref, cur, cur_n); s->n = cur_n;
+      } else {
+        expect_exc(cmd, exc, NULL);
+        size_t n0 = s->n; s->n = 0;
+        for (size_t i = 0; i < src->n; i++) if (pf_keep((int)pv, src->ref[i].val)) { Ent x = src->ref[i]; if (k != K_T) x.id = -1; ref_insert(s, s->n, x); }
+        if (k == K_T && n0 > 0 && !exc) {
+          /* known finding: Tuple_Assign from an iterator-only source pushes onto what the Tuple holds */
+          read_rep(s);
+          if (cur_n == n0 + s->n) {
+            X("sig=KF-C04-tuple-assign-iter line=%zu what=assign(t, filter(...)) on a Tuple of %zu items appended the %zu new items instead of replacing the contents", cur_line, n0, s->n);
+            ref_reserve(s, cur_n); entcpy(s->ref, cur, cur_n); s->n = cur_n;
+          }
+        }
+      }
     } else if (!strcmp(cmd, "resize") && nt == 3) {
       if (!parse_nat(toks[2], &iv) || iv > 100000) { O("bad-op"); continue; }
       if (k == K_LS && (size_t)iv > n) { O("resize unsupported"); continue; }   /* would create String elements with a NULL buffer */
